@@ -370,7 +370,8 @@ def k_uslp_history(ctx, seed, nsteps):
         h = TruncatedPrimaryHeader(r.getrandbits(16), SourceOrDestField(r.getrandbits(1)), r.getrandbits(6), r.getrandbits(4))
     else:
         h = PrimaryHeader(r.getrandbits(16), SourceOrDestField(r.getrandbits(1)), r.getrandbits(6), r.getrandbits(4), r.getrandbits(16),
-                          BypassSequenceControlFlag(r.getrandbits(1)), ProtocolCommandFlag(r.getrandbits(1)), bool(ocf), n, r.getrandbits(8 * n) if n else 0)
+                          BypassSequenceControlFlag(r.getrandbits(1)), ProtocolCommandFlag(r.getrandbits(1)), bool(ocf), n,
+                          r.choice((0, 0, 1, (1 << 8 * n) - 1, r.getrandbits(8 * n))) if n else 0)
     rule = r.randrange(3, 8) if trunc or r.random() < 0.5 else r.randrange(0, 3)
     ptr = r.getrandbits(16) if rule < 3 else None
     tf = uf.TransferFrameDataField(uf.TfdzConstructionRules(rule), uf.UslpProtocolIdentifier.USER_DEFINED_OCTET_STREAM, rand_bytes(r, r.choice((0, 1, 5, 40))), ptr)
